@@ -128,15 +128,17 @@ DONE = set(CHECKS)
 # second session: translators beyond the constants, and source-level theorems
 _TRANSLATED = {
     "C19": "the five big-integer formulas of the handshake (the model is parametrised by the back end)",
-    "C01": "the whole typestate API path (registration, from_database_values, into_proof, SrpClientChallenge::new, check_public_key, into_server, verify_server_proof), calculate_u / calculate_interleaved / calculate_session_key and the five big-integer formulas", "C02": "SrpProof::into_server and SrpClientChallenge::verify_server_proof",
-    "C03": "SKey::as_equal_slice, calculate_u, calculate_interleaved, calculate_session_key, the API constructors and the five big-integer formulas (verifier, B, S, client A, client S)", "C04": "check_public_key", "C05": "SrpServer::verify_reconnection_attempt and SrpClient::calculate_reconnect_values",
-    "C06": "the six ProofSeed::into_{client,server}_header_crypto functions", "C07": "the Vanilla encrypt / decrypt loop bodies and the three constructors",
+    "C01": "the whole typestate API path (registration, from_database_values, into_proof, SrpClientChallenge::new, check_public_key, into_server, verify_server_proof), calculate_u / calculate_interleaved / calculate_session_key and the five big-integer formulas", "C02": "SrpProof::into_server, SrpClientChallenge::verify_server_proof, the proof digests (calculate_client_proof, calculate_server_proof, calculate_x) and calculate_interleaved",
+    "C03": "SKey::as_equal_slice, calculate_u, calculate_interleaved, calculate_session_key, the API constructors and the five big-integer formulas (verifier, B, S, client A, client S)", "C04": "check_public_key, PublicKey::from_le_bytes, try_from_bigint and client_try_from_bigint", "C05": "SrpServer::verify_reconnection_attempt, SrpClient::calculate_reconnect_values and calculate_reconnect_proof",
+    "C06": "calculate_world_server_proof and the six ProofSeed::into_{client,server}_header_crypto functions", "C07": "the Vanilla encrypt / decrypt loop bodies and the three constructors",
     "C08": "the TBC encrypt / decrypt loop bodies and the three constructors with their HMAC key derivation", "C09": "Rc4::new with its key schedule, Rc4::pseudo_random_generation, Rc4::apply_keystream, InnerCrypto::new (HMAC key, drop of 1024 bytes) and the six Wrath constructors", "C10": "the Wrath header encoder and decoder (encrypt_server_header, attempt_decrypt_server_header, decrypt_large_server_header, from_small_array, from_large_array)",
     "C11": "the Vanilla / TBC loop bodies, their eight typed header helpers, two header parsers, eight Read / Write wrappers and the Wrath client's read_and_decrypt_server_header, and the Wrath encrypt_server_header", "C13": "NormalizedString::new and the four other constructors", "C14": "SKey::as_equal_slice",
     "C15": "every function that draws randomness (get_pin_grid_seed, get_pin_salt, get_matrix_card_seed, get_salt_value, the three ProofSeed::default, from_username_and_password, into_proof, SrpClientChallenge::new) and the positions of the draws in into_server, verify_reconnection_attempt, calculate_reconnect_values",
+    "C12": "split (four objects), unsplit, both is_pair_of and every constructor of the halves and combined objects",
+    "C17": "the six functions of src/integrity.rs (HMAC-SHA1 objects with their update sequences, finalise)",
     "C16": "pin_to_bytes, remap_pin_grid, calculate_hash and verify_client_pin_hash", "C18": "get_number_at_coordinates, get_matrix_coordinates, generate_coordinates, MatrixCardVerifier::{new, enter_value, into_proof}, verify_matrix_card_hash, Rc4::new and the RC4 output step",
 }
-_SRC_THEOREMS = {"C01", "C15", "C02", "C03", "C04", "C05", "C06", "C07", "C08", "C09", "C10", "C11", "C13", "C14", "C16", "C18"}
+_SRC_THEOREMS = {"C01", "C15", "C12", "C17", "C02", "C03", "C04", "C05", "C06", "C07", "C08", "C09", "C10", "C11", "C13", "C14", "C16", "C18"}
 for _k, _c in CHECKS.items():
     _c["text"] += (" Every run also re-reads the source: constants and inline literals, the field order of every digest (incl. byte order and width of serialised integers),"
                    " and a scan of the files the property reaches for hidden state / unsafe / ambient inputs, each as a proof obligation against the regenerated file.")
